@@ -370,7 +370,42 @@ def _grain_sibling(ctx, rm, regs, F, tval, key, where):
         ctx.ok("R5", key, where, "grain-delegated: the symbols read from the reaction are the same" + (f" (or refused: {sorted(refused)} not registered natively)" if refused else ""))
 
 
+NET_EDITS = {"remove_reaction", "add_reaction", "add_reaction_from_file", "_add_reaction", "reindex"}
+
+
+def render_reads_only(ctx, pkg, rule):
+    """`naunet render` renders the network the configuration describes: between Network(...) and the rendering it neither removes nor
+    adds nor renumbers reactions nor re-assigns the network's tables (rule shared by C13, C18, C20).  Re-indexing is the
+    renderer's own, guarded, step (C13.R3)."""
+    h = pkg.method("RenderCommand", "handle")
+    ctx.saw("naunet/console/commands/render.py", "RenderCommand.handle")
+    RENDER_ = "naunet/console/commands/render.py"
+    nets = {t.id for n in ast.walk(h) if isinstance(n, ast.Assign) and isinstance(n.value, ast.Call) and ast.unparse(n.value.func) == "Network" for t in n.targets if isinstance(t, ast.Name)}
+    if not nets:
+        ctx.missing(rule, "RenderCommand.handle:Network(..)", (RENDER_, h.lineno), "the command no longer builds a Network")
+        return
+    hits = []
+    for n in ast.walk(h):
+        if isinstance(n, ast.Call) and isinstance(n.func, ast.Attribute) and isinstance(n.func.value, ast.Name) and n.func.value.id in nets and n.func.attr in NET_EDITS:
+            hits.append((n.lineno, ast.unparse(n)[:80]))
+        if isinstance(n, (ast.Assign, ast.AugAssign)):
+            for t in (n.targets if isinstance(n, ast.Assign) else [n.target]):
+                b = t
+                while isinstance(b, ast.Subscript):
+                    b = b.value
+                if isinstance(b, ast.Attribute) and isinstance(b.value, ast.Name) and b.value.id in nets:
+                    hits.append((n.lineno, ast.unparse(n)[:80]))
+    for ln, txt in hits:
+        ctx.bad(rule, f"RenderCommand.handle edits the network:{re.sub(r'[^A-Za-z_.]+', ' ', txt)[:50]}", (RENDER_, ln),
+                f"`{txt}`: the command changes the network it has just built from naunet_config.toml before rendering it -- the sources no longer describe the configured network "
+                "(reactions.naunet, Network.export and the API rendering keep the unedited one; indices that rate modifiers refer to move)",
+                expected="render the network as read", found=txt)
+    if not hits:
+        ctx.ok(rule, "RenderCommand.handle renders the network as read", (RENDER_, h.lineno), f"no edit of {sorted(nets)} between Network(..) and the rendering")
+
+
 def _r6(ctx, pkg):
+    render_reads_only(ctx, pkg, "R7")
     fn = pkg.method("Network", "export")
     ctx.saw(NET, "Network.export")
     src = ast.unparse(fn)
@@ -442,6 +477,7 @@ def _r6(ctx, pkg):
 
 
 MUTANTS = [
+    {"name": "render-drops-duplicates", "file": "naunet/console/commands/render.py", "old": '        patchname = self.option("patch")\n', "new": '        if dupidx:\n            net.remove_reaction(dupidx)\n        patchname = self.option("patch")\n', "rules": ["R7"]},
     {"name": "export-writes-only-new-file", "file": NET, "old": '        if os.path.exists(reaction_file) and not overwrite:\n            logger.warning("Reaction file exists! Stop exporting!")\n            return\n\n        self.write(reaction_file, "naunet")\n',
      "new": '        if not os.path.exists(reaction_file):\n            self.write(reaction_file, "naunet")\n\n        elif not overwrite:\n            logger.warning("Reaction file exists! Stop exporting!")\n            return\n', "rules": ["R6"]},
     {"name": "writer-beta-gamma-swapped", "file": RFILE, "old": '                    f"{self.beta:10.3e}",\n                    f"{self.gamma:10.3e}",\n                    f"{self.temp_min:9.2f}",', "new": '                    f"{self.gamma:10.3e}",\n                    f"{self.beta:10.3e}",\n                    f"{self.temp_min:9.2f}",', "rules": ["R1"]},
